@@ -19,6 +19,30 @@ _REPO = Path(os.environ.get("VERIF_REPO", "/repo")).resolve()
 OUT = VERIF if _REPO == Path("/repo") else Path(os.environ.get("VZ_OUT", "/tmp/vz-mutant-out"))
 
 
+import contextlib
+
+
+@contextlib.contextmanager
+def _quiet_stderr():
+    """zorg / ANTLR print to the real stderr; keep the parent's output readable."""
+    if os.environ.get("VZ_DEBUG") == "1":
+        yield
+        return
+    import sys
+
+    sys.stderr.flush()
+    saved = os.dup(2)
+    dn = os.open(os.devnull, os.O_WRONLY)
+    os.dup2(dn, 2)
+    try:
+        yield
+    finally:
+        sys.stderr.flush()
+        os.dup2(saved, 2)
+        os.close(saved)
+        os.close(dn)
+
+
 def load_findings(pid: str) -> list[dict]:
     if not KNOWN.exists():
         return []
@@ -52,7 +76,8 @@ def replay(mod, path: str) -> int:
     part = _find_part(mod, "quick", body["part"])
     rec = Rec()
     try:
-        part.check(body["case"], rec)
+        with _quiet_stderr():
+            part.check(body["case"], rec)
     except Violation as v:
         print(f"replay: violated clause={v.clause}\n{v.detail}")
         print(f"VIOLATION property={mod.ID} replay={path}")
@@ -85,7 +110,8 @@ def run_property(mod, tier: str, seed: int, t0: float, only_part=None) -> int:
                 harness_problems.append(str(e))
                 continue
             try:
-                part.check(wcase, Rec())
+                with _quiet_stderr():
+                    part.check(wcase, Rec())
                 failed = None
             except Violation as v:
                 failed = v
@@ -131,10 +157,12 @@ def run_property(mod, tier: str, seed: int, t0: float, only_part=None) -> int:
                 break
             case = fl["case"]
             if os.environ.get("VZ_NO_SHRINK") != "1" and i < 3:
-                case = driver.shrink(part, fl, seed, budget)
+                with _quiet_stderr():
+                    case = driver.shrink(part, fl, seed, budget)
             detail = fl["detail"]
             try:
-                part.check(case, Rec())
+                with _quiet_stderr():
+                    part.check(case, Rec())
             except Violation as v:
                 detail = v.detail
             except BaseException:  # noqa: BLE001
